@@ -2838,18 +2838,18 @@ func (s *Storage) Decode(d *Decoder) error {
 		// INFO: we want to read the vectors from jamtestnet, so we follow the same
 		// pattern as in the jamtestnet. They put the length of the key before the
 		// key
-		length, err := d.DecodeLength()
+		// a zero-length key is a key like any other
+		keyLength, err := d.DecodeLength()
 		if err != nil {
 			return err
-		}
-
-		if length == 0 {
-			return nil
 		}
 
 		var key ByteSequence
 		if err = key.Decode(d); err != nil {
 			return err
+		}
+		if keyLength != uint64(len(key)) {
+			return fmt.Errorf("storage key length %d does not match the key (%d octets)", keyLength, len(key))
 		}
 		str := string(key)
 
